@@ -193,6 +193,45 @@ func craftedInputs() []epInput {
 		f := append(pre, box("mdat", make([]byte, lead+200))...)
 		add("bmff-exif-item-no-marker-at-window-end", f)
 	}
+	{
+		// a 64-bit-size box whose header starts 8 bytes before the end of the read window
+		pad := 4088 - len(ftypCrx) - 8
+		f := append(append([]byte{}, ftypCrx...), box("free", make([]byte, pad))...)
+		f = append(f, 0, 0, 0, 1, 'm', 'd', 'a', 't', 0, 0, 0, 0, 0, 0, 0, 48)
+		add("bmff-largesize-header-at-window-end", append(f, make([]byte, 64)...))
+		// size fields far beyond the file: meta and iloc each declare 64 MiB in a file of about a hundred bytes
+		big := func(t string, declared uint32, p []byte) []byte {
+			return append(append(binary.BigEndian.AppendUint32(nil, declared), []byte(t)...), p...)
+		}
+		iloc := big("iloc", 64<<20, []byte{0, 0, 0, 0, 0x44, 0, 0, 1, 0, 5, 0, 0, 0, 1, 0, 0, 0, 200, 0, 0, 0, 40})
+		for _, ft := range [][]byte{ftypCrx, box("ftyp", []byte("avif\x00\x00\x00\x00mif1avif"))} {
+			add("bmff-meta-iloc-declare-64MiB", append(append([]byte{}, ft...), big("meta", 64<<20+12, append([]byte{0, 0, 0, 0}, iloc...))...))
+		}
+		hd := big("hdlr", 8<<20, []byte{0, 0, 0, 0, 0, 0, 0, 0, 'p', 'i', 'c', 't'})
+		add("bmff-meta-hdlr-declare-8MiB", append(append([]byte{}, ftypCrx...), big("meta", 8<<20+12, append([]byte{0, 0, 0, 0}, hd...))...))
+		add("bmff-ftyp-declares-16MiB", big("ftyp", 16<<20, []byte("crx \x00\x00\x00\x01crx isom")))
+	}
+	// two out-of-line values of almost 4 MiB each in a file of a few hundred bytes (value offsets inside the file)
+	for _, cnt := range []uint32{4000000, 4194304 - 300, 1 << 20} {
+		tl := make([]byte, 200)
+		b := tiffLE([]ifdEntry{{0x010f, 2, cnt, le32(50)}, {0x0110, 2, cnt, le32(54)}, {0x0131, 2, cnt, le32(58)}}, 0, tl)
+		add(fmt.Sprintf("two-values-count-%d", cnt), b)
+		add(fmt.Sprintf("png-two-values-count-%d", cnt), pngFile(b))
+	}
+	// entries whose TYPE is invalid while the tag ID is one the parser acts on (after a valid entry for the same tag)
+	for _, ty := range []uint16{0, 6, 13, 14, 255, 0x0300} {
+		add(fmt.Sprintf("ifd0-orientation-then-invalid-type-%d", ty), tiffLE([]ifdEntry{{0x0112, 3, 1, []byte{6, 0}}, {0x0112, ty, 1, []byte{0, 0}}, {0x0100, 3, 1, []byte{0x80, 0x02}}}, 0, make([]byte, 16)))
+		add(fmt.Sprintf("ifd0-invalid-type-%d-then-orientation", ty), tiffLE([]ifdEntry{{0x010f, ty, 6, le32(50)}, {0x0112, 3, 1, []byte{6, 0}}}, 0, append(make([]byte, 12), []byte("Canon\x00")...)))
+	}
+	// infe entries of item type mime that end right at / before their content type
+	for _, sz := range []int{20, 21, 22, 23} {
+		e := append([]byte{2, 0, 0, 0, 0, 7, 0, 0}, []byte("mime\x00ab\x00")...)
+		infe := box("infe", e)[:sz]
+		binary.BigEndian.PutUint32(infe, uint32(sz))
+		iinf := box("iinf", append([]byte{0, 0, 0, 0, 0, 1}, infe...))
+		add(fmt.Sprintf("bmff-infe-mime-size-%d", sz), append(append(append([]byte{}, ftypHeic...), box("meta", append([]byte{0, 0, 0, 0}, iinf...))...), make([]byte, 32)...))
+		add(fmt.Sprintf("bmff-crx-infe-mime-size-%d", sz), append(append(append([]byte{}, ftypCrx...), box("meta", append([]byte{0, 0, 0, 0}, iinf...))...), make([]byte, 32)...))
+	}
 	// JPEG edge cases
 	add("jpeg-eoi-then-marker", append([]byte{0xFF, 0xD8, 0xFF, 0xD9, 0xFF, 0xE0, 0x00, 0x10}, make([]byte, 100)...))
 	add("jpeg-ff-start", append([]byte{0xFF, 0xE0, 0x00, 0x10}, make([]byte, 100)...))
